@@ -26,4 +26,4 @@ for s in $SEEDS; do
   echo "| $s | $own | $hits | $ownhit |" >> $OUT
   echo "$s: $hits"
 done
-mv $OUT /verif/seeded/MATRIX.md
+mv $OUT ${MATRIX_OUT:-/verif/seeded/MATRIX.md}
